@@ -27,7 +27,16 @@ type Cfg struct {
 
 func Bit(m, i int) bool { return m&(1<<i) != 0 }
 
-func Fail(x int) error { return fmt.Errorf("fail%d", x) }
+// Fail: some faults wrap the context errors of some other context (a fault like any other while the stage's own context is live).
+func Fail(x int) error {
+	switch {
+	case x%2 == 0:
+		return fmt.Errorf("fail%d: %w", x, context.DeadlineExceeded)
+	case x%3 == 0:
+		return fmt.Errorf("fail%d: %w", x, context.Canceled)
+	}
+	return fmt.Errorf("fail%d", x)
+}
 
 // Monoid returns the named commutative monoid over int.
 func Monoid(name string) (empty int, op func(a, b int) int) {
